@@ -33,6 +33,7 @@ def run(ctx):
     ctx.assume("ast.unparse inserts the parentheses Python's grammar needs")
 
     _exporter(ctx, model)
+    _printer_handlers_keep_no_state(ctx, model)
     _compile(ctx, model)
     _source_vs_python(ctx, model)
     _to_function(ctx, model)
@@ -507,6 +508,51 @@ def _analyse_fold(hm, fn=None):
         if args == [var, op, acc]:
             return f"builds ast.BinOp(child, op, {acc}) in a left fold"
     raise AnalysisError("_map_multi_children_op: fold shape not recognised")
+
+
+def _printer_handlers_keep_no_state(ctx, model):
+    """The source printer is re-entered for every nested node.  What a handler
+    parks on the mapper instance for a helper to pick up (the text of a
+    polynomial's base, a current precedence) is overwritten by the handler's
+    own recursive calls before it is used: a polynomial whose coefficient
+    contains a polynomial over another base is written with the inner base."""
+    cm = model.cls(f"{COMP}:CompileMapper")
+    n_h = 0
+    for k in model.mro(cm):
+        if not isinstance(k, ClassInfo) or k.module.name not in (
+                COMP, "pymbolic.mapper.stringifier"):
+            continue
+        for name, mem in k.members.items():
+            if mem.kind != "func" or not name.startswith("map_"):
+                continue
+            n_h += 1
+            me = mem.node.args.args[0].arg if mem.node.args.args else "self"
+            for st in ast.walk(mem.node):
+                tgts = st.targets if isinstance(st, ast.Assign) else [
+                    st.target] if isinstance(st, (ast.AugAssign, ast.AnnAssign)) \
+                    else []
+                for t in tgts:
+                    if isinstance(t, ast.Attribute) and isinstance(
+                            t.value, ast.Name) and t.value.id == me:
+                        undone = any(
+                            isinstance(tr, ast.Try) and tr.finalbody and any(
+                                isinstance(x, ast.Attribute) and x.attr == t.attr
+                                and isinstance(x.ctx, (ast.Store, ast.Del))
+                                for f_ in tr.finalbody for x in ast.walk(f_))
+                            for tr in ast.walk(mem.node))
+                        ctx.ob(f"O/printer/{k.name}.{name}/keeps-no-state:"
+                               f"{t.attr}", undone, k.module.loc(st),
+                               "restored in a finally block" if undone else
+                               f"{k.name}.{name} stores self.{t.attr} for the "
+                               "duration of the handler; the handler's own "
+                               "recursive calls re-enter it and overwrite the "
+                               "attribute, so the outer node is written with "
+                               "the inner node's value (x**2*(y**3 + 1) + 1 as "
+                               "a polynomial in x with a polynomial in y as "
+                               "coefficient)")
+    ctx.floor("printer handlers scanned for instance state", n_h, 30)
+    ctx.ob("O/printer/handlers-keep-no-state", True, cm.loc(),
+           f"{n_h} handlers of the source printer looked at")
 
 
 def _export_comparison_table(model, mp, rv, sym_of):
